@@ -68,9 +68,12 @@ class Ctx(object):
 
     # -- recording --------------------------------------------------------
     def rule(self, rid, desc, min_instances=1):
-        self.rules[rid] = {'desc': desc, 'instances': 0, 'min': min_instances, 'violations': 0}
+        r = self.rules.setdefault(rid, {'desc': desc, 'instances': 0, 'min': 0, 'violations': 0})
+        r['desc'] = desc
+        r['min'] = max(r['min'], min_instances)
 
     def holds(self, rid, instance, detail=None, sample=None):
+        self.rules.setdefault(rid, {'desc': '', 'instances': 0, 'min': 0, 'violations': 0})
         self.rules[rid]['instances'] += 1
         self.obligations.append((rid, instance, 'HOLDS'))
         if sample is not None and len(self.samples) < 40:
@@ -84,6 +87,7 @@ class Ctx(object):
         if not isinstance(fi_or_qualname, str):
             ln = getattr(node, 'lineno', None) or fi_or_qualname.lineno
             where = '%s:%s' % (fi_or_qualname.file, ln)
+        self.rules.setdefault(rid, {'desc': '', 'instances': 0, 'min': 0, 'violations': 0})
         self.rules[rid]['instances'] += 1
         self.rules[rid]['violations'] += 1
         f = Finding(self.prop, '%s-%s' % (self.prop, rid), q, construct, message, where, witness)
